@@ -207,6 +207,8 @@ def model_script(case, trans):
     stmap, idx = {}, []
     st = trans.start_table()
     out = ["case " + case.name]
+    if "include_disallowed" in case.header:
+        out.append("incl 1")
     if st is not None:
         out += table_model_lines(st, stmap)
     out.append("start")
@@ -299,6 +301,7 @@ class Ref:
         self.flags = set()
         self.stats = Counter()
         # mirror of the C-side cache state, only used to recognise calls with undefined behaviour
+        self.incl = False    # topology loaded with HWLOC_TOPOLOGY_FLAG_INCLUDE_DISALLOWED (header line include_disallowed)
         self.infos = {}      # NUMA gp -> {info name: value} given by `info` header lines (exported/imported by XML)
         self.load_env = {}   # memory-tier variables set while the synthetic topology was loaded
         self.valid = {}      # id -> CACHE_VALID
@@ -797,6 +800,25 @@ class Ref:
             raise BadCase()
         return self._sw("xml")
 
+    def x_allow(self, t):
+        """hwloc_topology_allow(): return code only; it must not change anything a memattr call reports
+        (the refresh intersects stored cpusets with the ROOT cpuset, not with the allowed one)"""
+        if len(t) != 4:
+            raise BadCase()
+        c = None if t[1] == "-" else pset(t[1])
+        n = None if t[2] == "-" else pset(t[2])
+        flags = p_u64(t[3])
+        if not self.incl or flags & ~7:
+            return fail("allow")
+        if flags == 1:
+            return Exp("R allow rc=0 err=OK") if c is None and n is None else fail("allow")
+        if flags == 4:
+            rootn = sum(1 << x.os for x in self.numa())
+            if (c is not None and not c & self.topo.root) or (n is not None and not n & rootn):
+                return fail("allow")
+            return Exp("R allow rc=0 err=OK")
+        return fail("allow")        # 0, LOCAL_RESTRICTIONS on a topology that is not this system, combinations
+
     def x_xmlt(self, t):
         """XML round trip with HWLOC_MEMTIERS* variables set during the reload: the memory attributes
         survive as for `xml`; the tiers (subtypes, MemoryTier, MemoryTiersNr) are judged by tiers_reference()."""
@@ -823,6 +845,7 @@ class Ref:
         when HWLOC_MEMTIERS* variables were set for it (subtypes set by header lines come afterwards)."""
         numa = self.numa()
         subs = {}
+        self.incl = "include_disallowed" in header
         for h in header:
             f = h.split(" ")
             if f[0] == "info" and len(f) == 4 and f[1].isdigit() and int(f[1]) < len(numa):
@@ -1474,6 +1497,10 @@ class OpGen:
         w = dict(self.WEIGHTS)
         if stream == "internal":
             w["iset"] = 14
+        if ref.incl:
+            w["allow"] = 5
+        if stream == "allow":       # hwloc_topology_allow between the memattr calls (INCLUDE_DISALLOWED topologies)
+            w["allow"] = 16
         if stream == "tiers":       # memory tiers: local bandwidth/latency values, then XML reloads with HWLOC_MEMTIERS* set
             w = {"set": 6, "xmlt": 14, "defnodes": 6, "restrict": 3, "get": 2, "bestt": 2, "xml": 1, "dup": 1, "tierset": 12}
         if stream == "hetero":      # default nodeset / local nodes on heterogeneous machines, through restrict/dup/xml
@@ -1743,6 +1770,22 @@ class OpGen:
             env.append("HWLOC_MEMTIERS=" + forced_tiers(rng, [n.os for n in self.ref.numa()]))
         return "xmlt " + " ".join(env) if env else "xmlt"
 
+    def g_allow(self):
+        rng, t = self.rng, self.ref.topo
+        r = rng.random()
+        if r < 0.12:
+            return "allow - - 1"                                     # ALL
+        if r < 0.2:
+            return rng.choice(["allow - - 0", "allow - - 2", "allow - - 8", "allow %s - 1" % fset(t.root), "allow - - 5",
+                               "allow %s - 4" % fset(1 << 100), "allow - %s 4" % fset(1 << 90)])
+        c = self.subset(t.root)
+        if rng.random() < 0.3:
+            c |= 1 << rng.choice([70, 100])                          # bits outside the machine are ignored
+        oss = [n.os for n in self.ref.numa()]
+        n = sum(1 << o for o in oss if rng.random() < 0.6) or (1 << rng.choice(oss))
+        k = rng.random()
+        return "allow %s %s 4" % (fset(c) if k < 0.85 else "-", fset(n) if k > 0.5 else "-")
+
     def g_dup(self):
         return "dup"
 
@@ -1863,7 +1906,7 @@ def forced_tiers(rng, oss):
     return ";".join("%s=%s" % (fset(sum(1 << o for o in p)), rng.choice(TIER_WORDS)) for p in parts if p)
 
 
-def gen_header(rng, s, name, force=None, hetero=False, tiers=False):
+def gen_header(rng, s, name, force=None, hetero=False, tiers=False, allow=False):
     """case / env / synth / pre_restrict / misc / mem / subtype / info / start.  Returns (topokind, Topo)"""
     kind, desc = pick_topology(rng)
     alts = []
@@ -1874,6 +1917,14 @@ def gen_header(rng, s, name, force=None, hetero=False, tiers=False):
     if force:
         kind, desc = "scripted", force
     s.send("case " + name)
+    xmlin = None
+    if allow or (not force and rng.random() < 0.12):
+        s.send("include_disallowed")
+        kind += "+incl"
+        if allow and rng.random() < 0.35:
+            # XML inputs of the source tree whose allowed sets are strict subsets of the machine
+            xmlin = rng.choice(["16amd64-8n2c-cpusets.xml", "irregulargroups-disallowed.xml", "16em64t-4s2c2t-offlines.xml"])
+            kind, alts = "xml-" + xmlin.split(".")[0] + "+incl", []
     if tiers and rng.random() < 0.35:
         # memory-tier knobs seen by the load of the synthetic topology itself
         n = nn0 or rng.randint(2, 4)
@@ -1881,7 +1932,7 @@ def gen_header(rng, s, name, force=None, hetero=False, tiers=False):
         if rng.random() < 0.3:
             s.send("env HWLOC_MEMTIERS_GUESS=" + rng.choice(["all", "none", "node0_is_dram"]))
         kind += "+loadenv"
-    o = s.send("synth " + desc)
+    o = s.send("xmlfile @REPO@/tests/hwloc/xml/" + xmlin) if xmlin else s.send("synth " + desc)
     while "P synth rc=0" not in o and alts:      # shuffled indexes refused: same shape with default numbering
         s.script.pop()
         desc = alts.pop(0)
@@ -1891,7 +1942,7 @@ def gen_header(rng, s, name, force=None, hetero=False, tiers=False):
         raise RuntimeError("synthetic description does not load: %r (%r)" % (desc, o))
     t = s.table()
     numa_t = s.proc.types["numa"]
-    if rng.random() < 0.25 and not force:
+    if rng.random() < 0.25 and not force and not xmlin:
         c = [n for n in t.of_type(numa_t) if n.cpuset and t.root & ~n.cpuset]
         if c:
             n = rng.choice(c)
@@ -1950,10 +2001,10 @@ def gen_case(rng, proc, name, stream, first=False):
         force = None
         if stream in ("uninit", "dupfree"):
             force = rng.choice(["pack:2 [numa] core:2 pu:1", "pack:3 [numa(memory=512)] core:2 pu:2", "numa:2 core:2 pu:1"])
-        kind, topo = gen_header(rng, s, name, force, hetero=(stream == "hetero"), tiers=(stream == "tiers"))
+        kind, topo = gen_header(rng, s, name, force, hetero=(stream == "hetero"), tiers=(stream == "tiers"), allow=(stream == "allow"))
         ref = Ref(proc.types)
         ref.topo = topo
-        ref.read_header([l for l in s.script if l.split(" ")[0] in ("info", "env", "subtype", "pre_restrict")], None)
+        ref.read_header([l for l in s.script if l.split(" ")[0] in ("info", "env", "subtype", "pre_restrict", "include_disallowed")], None)
         og = OpGen(rng, ref, stream)
         ops = []
         if first:
